@@ -26,7 +26,7 @@ SUB = {
     'math': ['$', '$$', '\\(', '\\)', '\\[', '\\]', 'x', '\\$', '{', '}', '\\cup', '[', '\\left(', '\\begin{equation}', '\\end{equation}', '\\a'],
     'verb': ['\\begin{verbatim}', '\\end{verbatim}', '\\begin{e}', '\\end{e}', '$', '{', '}', 'x', '%', '\n', '\\', '[', '\\end',
              '\\end{verbatim', ']', '\\begin {verbatim}', '{x} y', 'a%b'],
-    'item': ['\\begin{itemize}', '\\end{itemize}', '\\item', '\\item[', ']', 'x', 'é', '\\begin{item}', '\\end{item}', ' ', '{', '}', '$', '\\a', '\\begin{e}', '\\end{e}'],
+    'item': ['\\begin{itemize}', '\\end{itemize}', '\\item', '\\item[', ']', 'x', 'é', '\\begin{item}\\a\\end{item}', '{e}', ' ', '{', '}', '$', '\\a', '\\begin{e}', '\\end{e}'],
     'esc': ['\\', '\\\\', '%', '\\%', 'c', '\n', '{', '}', '$', '\\$', ' ', 'a', '\\a', '*'],
     'sig': ['\\def', '\\textbf', '\\section', '\\label', '\\newcommand', '\\a', '{', '}', '[', ']', 'x', ' ', '\\cup', '\\left', '(', '\\begin{e}', '\\end{e}',
             '\\textbf{a}', '\\label{k}', '\\section[s]{t}', '\\def{a}{b}', '\\def\\foo{bar}', '\\section\\foo', '\\p{a}{b}{c}', '\\newcommand{\\p}[2]{x}', '\\renewcommand*', '%c\n', '\\newcommand{\\p}[]{x}', '\\newcommand{\\p}[#]'],
